@@ -604,6 +604,12 @@ def clampI (x hi : Int) : Int := if x < 0 then 0 else if x > hi - 1 then hi - 1 
 
 def Geom.clamp (g : Geom) (i : I3) : I3 := ⟨clampI i.i0 g.n0, clampI i.i1 g.n1, clampI i.i2 g.n2⟩
 
+/-- per-channel padding value; `d` is returned for a channel index outside `cshape` (not a cell of the array) -/
+def tableGet (t : List (List Nat × Option Rat)) (ch : List Nat) (d : Rat) : Rat :=
+  match t.lookup ch with
+  | some (some x) => x
+  | _ => d
+
 /-- `Volume.pad` after `_prepare_pad_width`: the padded array.  `f` is the index map of the padding. -/
 def padArray (v : Vol) (f : I3 → I3) (o : PadOpts) : Except ErrKind ((I3 → List Nat → Rat) × Bool) :=
   match PadMode.parse o.mode with
@@ -623,9 +629,7 @@ def padArray (v : Vol) (f : I3 → I3) (o : PadOpts) : Except ErrKind ((I3 → L
         let table := (chanIndices v.cshape).map fun c => (c, (statOf mode (v.channelValues c)).map (castTo v.isInt))
         if table.any (fun e => e.2.isNone) then .error .value else
         .ok (fun j ch => if v.geom.inRange (f j) then v.arr (f j) ch else
-              match table.lookup ch with
-              | some (some x) => x
-              | _ => v.arr (f j) ch, false)   -- `ch` outside `cshape`: not a cell of the array
+              tableGet table ch (v.arr (f j) ch), false)
       else
         match statOf mode v.values with
         | none => .error .value
